@@ -245,8 +245,8 @@ def plan(tier, seed):
     specs += [{"kind": "mg_ex", "lengths": [1, 2, 3, 4]}, {"kind": "mg_ex", "lengths": [5]}]
     if not q:
         specs.append({"kind": "mg_ex", "lengths": [6]})
-    for i in range(6 if q else 12):
-        specs.append({"kind": "random", "sub": i, "cases": 150 if q else 2000, "budget_s": 100 if q else 1500})
+    for i in range(6 if q else 16):
+        specs.append({"kind": "random", "sub": i, "cases": 150 if q else 8000, "budget_s": 100 if q else 600})
     return specs
 
 
